@@ -345,10 +345,10 @@ pub(crate) fn mode(entry: &VfsEntry, octal: u32, sym: &str) -> RvResult<u32> {
                     if c != 'd' && c != 'f' && c != 'a' && c != ':' {
                         return Err(VfsError::InvalidChmodTarget(sym.to_string()).into());
                     }
-                    if entry.is_symlink() {
-                        return Ok(mode); // links are never modified so just return the original mode
-                    } else if (c == 'd' && !entry.is_dir()) || (c == 'f' && !entry.is_file()) {
-                        applies = false; // target mismatch so skip this clause only, later ones may apply
+                    if entry.is_symlink() || (c == 'd' && !entry.is_dir()) || (c == 'f' && !entry.is_file()) {
+                        // links are never modified and a target mismatch skips this clause only, either
+                        // way the rest of the expression is still validated
+                        applies = false;
                     }
                     if c == ':' {
                         state = State::Group;
